@@ -284,6 +284,17 @@ def check(prop, tier, seed):
         lines.append(f"CHECKER-ERROR property={prop} zero obligations")
         exit_code = exit_code or 3
 
+    st = None
+    if tier == "thorough" and not os.environ.get("VERIF_SELFTEST") and os.environ.get("VERIF_NO_SELFTEST") != "1":
+        st = selftest(prop)
+        for h in st["harmless_edits"]:
+            if h["status"] == "FALSE-ALARM":
+                lines.append(f"CHECKER-ERROR property={prop} self-test: harmless edit {h['id']} ({h.get('why')}) raises an alarm: {h.get('first')}")
+                if exit_code in (0, 2):
+                    exit_code = 3
+        nd = [x["id"] for x in st["seeded_changes"] if x["status"] == "not-detected"]
+        print(f"self-test: seeded changes {[(x['id'], x['status']) for x in st['seeded_changes']]}; harmless edits "
+              f"{[(x['id'], x['status']) for x in st['harmless_edits']]}")
     wall = time.time() - t0
     level = getattr(P, "LEVEL", "proof")
     if level == "exploration":
@@ -302,7 +313,7 @@ def check(prop, tier, seed):
                            "trusted_base": list(getattr(P, "TRUSTED_BASE", [])),
                            "undecided": [r["oid"] for _, r in unknown] + [o["task"] for o in errors],
                            "known_findings_reported": known_lines,
-                           "not_covered": list(getattr(P, "NOT_COVERED", [])), "repo": REPO,
+                           "not_covered": list(getattr(P, "NOT_COVERED", [])), "repo": REPO, "selftest": st,
                            "verdict": {0: "held", 1: "violation", 2: "undecided", 3: "checker-error"}[exit_code]},
               "assumptions": list(getattr(P, "ASSUMPTIONS", [])), "wall_s": round(wall, 3), "violations": violations}
         with open(os.path.join(evdir, f"{prop}.json"), "w") as fh:
@@ -332,6 +343,7 @@ def check(prop, tier, seed):
             "not_covered": list(getattr(P, "NOT_COVERED", [])),
             "undecided": [r["oid"] for _, r in unknown] + [o["task"] for o in errors],
             "known_findings_reported": known_lines,
+            "selftest": st,
             "repo": REPO,
             "verdict": {0: "held", 1: "violation", 2: "undecided", 3: "checker-error"}[exit_code],
         },
@@ -347,6 +359,70 @@ def check(prop, tier, seed):
           f"({n_inst} per-path instances, {len(functions)} functions, {len(lemmas)} lemmas, "
           f"{len(bounded)} bounded stand-ins) in {wall:.1f}s")
     return exit_code
+
+
+def selftest(prop):
+    """thorough tier: validate the check itself on scratch copies of the working tree (created and removed here):
+      * every seeded property-breaking change of THIS property under /verif/seeded (confirmed: tests pass, demo
+        shows the violation) must make the quick check report a violation;
+      * every catalogued harmless edit for this property must NOT (that would be a false alarm)."""
+    import glob
+    import shutil
+    import subprocess
+    import tempfile
+    res = {"seeded_changes": [], "harmless_edits": []}
+
+    def scratch():
+        tmp = tempfile.mkdtemp(prefix="pyvc_self_")
+        dst = os.path.join(tmp, "repo")
+        shutil.copytree(REPO, dst, ignore=shutil.ignore_patterns(".git", "__pycache__", "*.pyc", ".pytest_cache"))
+        return tmp, dst
+
+    def run_on(dst):
+        env = dict(os.environ, VERIF_REPO=dst, VERIF_SELFTEST="1", VERIF_TIER="quick")
+        r = subprocess.run([sys.executable, "-m", "pyvc.cli", prop, "--tier", "quick"], cwd=VERIF, env=env, capture_output=True, text=True,
+                           timeout=3600)
+        viol = [ln for ln in r.stdout.splitlines() if ln.startswith("VIOLATION")]
+        return r.returncode, viol
+
+    verdict = {0: "not-detected", 1: "detected", 2: "undecided", 3: "checker-error"}
+    for d in sorted(glob.glob(os.path.join(VERIF, "seeded", prop + "-m*"))):
+        patch = os.path.join(d, "patch.diff")
+        if not os.path.exists(patch):
+            continue
+        tmp, dst = scratch()
+        try:
+            r = subprocess.run(["patch", "-s", "-p1", "--no-backup-if-mismatch", "-i", patch], cwd=dst, capture_output=True, text=True)
+            if r.returncode != 0:
+                res["seeded_changes"].append({"id": os.path.basename(d), "status": "patch-does-not-apply-to-this-tree"})
+                continue
+            rc, viol = run_on(dst)
+            res["seeded_changes"].append({"id": os.path.basename(d), "status": verdict.get(rc, str(rc)), "violations": len(viol),
+                                          "with_failing_input": sum("no-failing-input-found" not in v for v in viol),
+                                          "first": (viol[0][:200] if viol else None)})
+        finally:
+            shutil.rmtree(tmp, ignore_errors=True)
+    cat = os.path.join(VERIF, "selftest", "harmless.json")
+    edits = json.load(open(cat))["edits"] if os.path.exists(cat) else []
+    for e in edits:
+        if prop not in e.get("props", []) or e.get("skip"):
+            continue
+        tmp, dst = scratch()
+        try:
+            f = os.path.join(dst, e["file"])
+            src = open(f).read()
+            n = src.count(e["old"])
+            if n == 0 or (n != 1 and not e.get("all")):
+                res["harmless_edits"].append({"id": e["id"], "status": "pattern-not-found-in-this-tree"})
+                continue
+            open(f, "w").write(src.replace(e["old"], e["new"]))
+            rc, viol = run_on(dst)
+            res["harmless_edits"].append({"id": e["id"], "why": e.get("why"), "status": {0: "held", 1: "FALSE-ALARM", 2: "undecided",
+                                                                                         3: "checker-error"}.get(rc, str(rc)),
+                                          "first": (viol[0][:200] if viol else None)})
+        finally:
+            shutil.rmtree(tmp, ignore_errors=True)
+    return res
 
 
 def _safe(s):
